@@ -45,12 +45,21 @@ func halfHash(alg, at string) (half, full string) {
 	return base64.RawURLEncoding.EncodeToString(sum[:len(sum)/2]), base64.RawURLEncoding.EncodeToString(sum)
 }
 
+// shardSize: thorough shards are kept small so that 16 coqc processes evaluating
+// them in parallel stay well below 1 GB each (0 = emit's default for quick).
+func shardSize(cfg drv.Config) int {
+	if cfg.Quick {
+		return 0
+	}
+	return 300
+}
+
 func main() {
 	cfg := drv.Parse()
 	r := drv.NewRand(cfg.Seed)
 	pool := tok.NewPool(r)
 	tok.SetWarm(pool)
-	w := emit.NewWriter(cfg.Out, "C01_spec", 0, cfg.Only)
+	w := emit.NewWriter(cfg.Out, "C01_spec", shardSize(cfg), cfg.Only)
 	n := cfg.Count(480, 12000)
 	amb := 0
 	ctx := context.Background()
